@@ -113,8 +113,23 @@ def oracle_case(cid, c, out):
             seen.add(key)
             if res == "err":
                 st["err"] += 1
+        elif f[0] == "H":
+            st["rpc"] += 1
+            st["down"] = st.get("down", 0) + 1
+            if res != "err":
+                fails.append("a batch sent while the raft group was not ready was answered %r instead of an error" % res)
         elif f[0] == "B":
             st["rpc"] += 1
+            if res == "ok":
+                # an acknowledged call was proposed and applied: every entry is covered by the position of its cluster
+                for e in f[1:]:
+                    g = e.split(".")
+                    if len(g) < 5 or int(g[2]) == 0:
+                        continue
+                    got = s.get("c" + g[0])
+                    if got is None or not (int(g[1]) < got[0] or int(g[2]) <= got[1]):
+                        fails.append("ApplyRaftReqs answered success but entry %s is not covered by the recorded position %s" % (e, got))
+                        break
             for e in f[1:]:
                 g = e.split(".")
                 if tuple(g[:5]) in seen:
@@ -395,7 +410,7 @@ def run(ctx):
                             f.write(line if line.endswith("\n") else line + "\n")
             runs.append(dict(sub="corpus", replay=cf))
         if quick:
-            runs.append(dict(sub="fresh", n=320, nm=30, nm0=40, nb=6, ne=6, nes=1, engines="mem"))
+            runs.append(dict(sub="fresh", n=300, nm=30, nm0=40, nb=8, ne=6, nes=1, engines="mem"))
         else:
             runs.append(dict(sub="fresh", n=4000, nm=300, nm0=400, nb=110, ne=50, nes=8, engines="mem,pebble,rocksdb"))
             runs.append(dict(sub="fresh-pebble-live", n=0, nb=30, ne=15, engines="pebble"))
